@@ -78,7 +78,13 @@ def expect_rows(out, exp, what, check_dtype=True, **info):
     r = lib(torows, out.value)
     if not r.ok:
         raise Violation(what + ":undecodable", got=r.brief(), **info)
-    if not rows_same(r.value, exp):
+    from .c04 import INEXACT, close_enough
+    if info.get("uf") in INEXACT:
+        # numpy's own loops for these functions (contiguous / strided / scalar) differ in the last bit: a few ulps are allowed
+        same = len(r.value) == len(exp) and all(close_enough(g, e, info["uf"]) for g, e in zip(r.value, exp))
+    else:
+        same = rows_same(r.value, exp)
+    if not same:
         raise Violation(what + ":values", expected=jsonable([e.tolist() for e in exp]), got=jsonable([g.tolist() for g in r.value]), **info)
     if check_dtype and exp and any(g.dtype != e.dtype for g, e in zip(r.value, exp) if e.size):
         raise Violation(what + ":dtype", expected=str(exp[0].dtype), got=str(r.value[0].dtype), **info)
